@@ -2,7 +2,7 @@
    and its cost is bounded by a quadratic polynomial in the length of the text. *)
 From Coq Require Import ZArith List Bool Lia.
 From KB Require Import Sx.
-From C12 Require Import Generated Model Env Proofs Cost.
+From C12 Require Import Model Proofs Cost.
 Import ListNotations.
 Open Scope Z_scope.
 
